@@ -1,13 +1,14 @@
 """C04 — ABT_mutex: mutual exclusion, recursion, trylock, no lost wake-up.
 Ties: T1 (skeletons of the mutex / wait-list / futex functions), T3 (vsched traces validated against Model.Mutex)."""
 import collections, json, os
+from checks import futex_common
 from vlib import common as C
 from vlib import t1, t3, vs
 
 ASSUMPTIONS = [
     "sequentially consistent execution of the atomic primitives (acquire/release annotations not modelled)",
     "liveness ('every blocked locker eventually acquires') is established in safety form: no-lost-wakeup invariant in Lean + deadlock/livelock detection by the controlled scheduler on explored schedules; OS-thread fairness assumed",
-    "futex wake-up counting (waitlist futex word) is exercised under the virtual futex, not modelled in Lean",
+    futex_common.ASSUMPTION,
     "pool push / blocked-counter / context-switch steps of a blocking lock belong to the C01/C02/C06 models",
 ]
 
@@ -27,7 +28,7 @@ def scenario_params(rng):
     nes = 1 + rng.below(3)
     nact = 2 + rng.below(5)
     rounds = 2 + rng.below(3)
-    return ["mutex", nes, nact, rounds, 25, 10]
+    return ["mutex", nes, nact, rounds, 25, 10, rng.below(2)]
 
 
 def validate(lg, params):
@@ -52,6 +53,7 @@ def run(res, tier, broken):
     vs.campaign(res, broken, tier, "C04", "sc_sync", ["sc_sync.c"], scenario_params, validate,
                 reject_is_failure=vs.protocol_reject_is_failure)
     native_depth(res)
+    futex_common.run(res, tier, broken, res.seed)
 
 
 def native_depth(res):
@@ -72,6 +74,8 @@ def native_depth(res):
 def replay(res, path):
     import json, subprocess
     rep = json.load(open(path))
+    if rep.get("harness") == "wb_futex":
+        return futex_common.replay(rep)
     if rep.get("native") == "nat_mutex_depth":
         exe = C.cc_harness("nat_mutex_depth", ["nat_mutex_depth.c"], "plain")
         p = subprocess.run([exe], stdout=subprocess.PIPE, stderr=subprocess.STDOUT, timeout=120)
